@@ -5,8 +5,10 @@
      construction/enablers/feature_combinator.rs :: accept_insertion_with_states, accept_route_state_with_states,
                                                   accept_solution_state_with_states (single round: no conditional-job promotion,
                                                   that loop is in Model/CacheX.v) - handlers run in GOAL ORDER on the cache as it is
-     construction/heuristics/context.rs        :: InsertionContext::restore, insertions.rs :: finalize_insertion_ctx
-                                                  (accept_solution_state, THEN remove_empty_routes) = restore_d
+     construction/heuristics/context.rs        :: InsertionContext::restore, insertions.rs :: finalize_insertion_ctx = restore_d true
+                                                  (since /repo 38e261f: remove_empty_routes, accept_solution_state,
+                                                  remove_empty_routes; before - finding C05-F5, `restore_d false` - the first
+                                                  clean-up was missing)
      construction/enablers/schedule_update.rs  :: update_route_schedule = update_schedules; update_states; update_statistics
                                                   (TransportState: insertion always / route yes / solution: stale tours)
      construction/enablers/route_intervals.rs  :: get_route_intervals (marker_intervals), RouteIntervals::get_marker_intervals /
@@ -20,7 +22,9 @@
                                                   nothing for an actor without a distance limit), RechargeIntervals state
      construction/features/tour_limits.rs      :: TravelLimitState (limit duration: route-level handler only; a function of the actor)
      construction/features/tour_order.rs       :: TourOrderState (per-solution violation count), get_violations, compare_order_results
-     construction/features/work_balance.rs     :: WorkBalanceState<K> (per-route value: insertion always / route yes / solution NEVER;
+     construction/features/work_balance.rs     :: WorkBalanceState<K> (per-route value: insertion always / route yes / solution: stale
+                                                  tours since /repo 5d6f1d2 - NEVER before, finding C05-F3, kept as `SolNever` in
+                                                  f_balance_gen / goal_table_gen for the witness theorem;
                                                   per-solution aggregate: the route estimate of every tour read from the LIVE route
                                                   state), the four route estimates (max load over the cached reload intervals and
                                                   max-future loads, activities, cached total distance, cached total duration)
@@ -105,10 +109,15 @@ Definition unset_d (r : rctx) : rctx := mkRctx (rc_tour r) (rc_state r) false.
 Definition accept_solution_state_d (es : list entry) (s : sctx) : sctx :=
   let s' := run_sol es s in mkS (map unset_d (s_routes s')) (s_aggs s').
 
-(* InsertionContext::restore / finalize_insertion_ctx: the solution-level handlers, THEN remove_empty_routes *)
-Definition restore_d (is_empty : tour -> bool) (es : list entry) (s : sctx) : sctx :=
-  let s' := accept_solution_state_d es s in
-  mkS (filter (fun r => negb (is_empty (rc_tour r))) (s_routes s')) (s_aggs s').
+(* InsertionContext::restore / finalize_insertion_ctx.  `early` = the code since /repo 38e261f: remove_empty_routes, the
+   solution-level handlers, remove_empty_routes again.  `early = false` = the code before (finding C05-F5, regression mutant
+   C05-18): the handlers ran while the tours without jobs were still in the solution *)
+Definition drop_empty (is_empty : tour -> bool) (rs : list rctx) : list rctx :=
+  filter (fun r => negb (is_empty (rc_tour r))) rs.
+Definition restore_d (early : bool) (is_empty : tour -> bool) (es : list entry) (s : sctx) : sctx :=
+  let s0 := if early then mkS (drop_empty is_empty (s_routes s)) (s_aggs s) else s in
+  let s' := accept_solution_state_d es s0 in
+  mkS (drop_empty is_empty (s_routes s')) (s_aggs s').
 
 (* ---- which fields a pass makes right: a field is GOOD when its handler fires in the pass (`ok`) and every key it reads is
    good before it in handler order; `avail` = the keys known to be right when the pass starts ---- *)
@@ -427,9 +436,11 @@ Definition f_rdist : feat :=
                   | Some _ => Some (VList (recharge_counters (ft_acts t) (cached_ivs K_RIVS (whole t) c)))
                   end) always true SolStale.
 
-(* WorkBalanceState<K>: the per-route value (accept_solution_state does not touch it) *)
-Definition f_balance (reload : bool) (o : okind) : feat :=
-  mkD (K_BAL o) (estimate_deps reload o) (fun t c => Some (route_estimate reload o t c)) always true SolNever.
+(* WorkBalanceState<K>: the per-route value; `sol` = what accept_solution_state does for it: SolStale since /repo 5d6f1d2
+   (stale tours refreshed before the aggregate is computed), SolNever before (finding C05-F3, regression mutant C05-17) *)
+Definition f_balance_gen (sol : on_solution) (reload : bool) (o : okind) : feat :=
+  mkD (K_BAL o) (estimate_deps reload o) (fun t c => Some (route_estimate reload o t c)) always true sol.
+Definition f_balance : bool -> okind -> feat := f_balance_gen SolStale.
 (* FastServiceState *)
 Definition f_ranges : feat :=
   mkD K_RANGES [] (fun t _ => Some (VRanges (multi_ranges t))) always true SolStale.
@@ -442,23 +453,27 @@ Definition a_balance (reload : bool) (o : okind) : afeature ftour fval sval :=
   mkA (K_BAL o) (estimate_deps reload o)
       (fun rs => Some (SVec (map (fun r => route_estimate reload o (rc_tour r) (rc_state r)) rs))).
 
-Definition objective_entries (reload : bool) (o : okind) : list fentry :=
+Definition objective_entries (bsol : on_solution) (reload : bool) (o : okind) : list fentry :=
   match o with
   | OFast => [ERoute f_ranges]
-  | _ => [ERoute (f_balance reload o); EAgg (a_balance reload o)]
+  | _ => [ERoute (f_balance_gen bsol reload o); EAgg (a_balance reload o)]
   end.
 
-(* the goal, in handler order *)
-Definition goal_table (g : gcfg) : list fentry :=
+(* the goal, in handler order; bsol = the solution-level trigger of the work balance route values *)
+Definition goal_table_gen (bsol : on_solution) (g : gcfg) : list fentry :=
   (if c_order g then [EAgg a_order] else [])
-  ++ flat_map (objective_entries (c_reload g)) (c_before g)
+  ++ flat_map (objective_entries bsol (c_reload g)) (c_before g)
   ++ map ERoute transport_fs
-  ++ flat_map (objective_entries (c_reload g)) (c_after g)
+  ++ flat_map (objective_entries bsol (c_reload g)) (c_after g)
   ++ map ERoute (capacity_fs (c_reload g))
   ++ (if c_compat g then [ERoute f_compat] else [])
   ++ (if c_groups g then [ERoute f_groups] else [])
   ++ (if c_limits g then [ERoute f_limit] else [])
   ++ (if c_recharge g then [ERoute f_rivs; ERoute f_rdist] else []).
+(* the code as it is *)
+Definition goal_table : gcfg -> list fentry := goal_table_gen SolStale.
+(* the code before /repo 5d6f1d2 *)
+Definition goal_table_before_5d6f1d2 : gcfg -> list fentry := goal_table_gen SolNever.
 
 (* the same descriptors in an order in which every handler comes after the handlers of the keys it reads *)
 Definition objective_features (reload : bool) (o : okind) : list feat :=
@@ -498,10 +513,10 @@ Definition good_insertion (g : gcfg) (j : fact) : list nat := good_from _ _ _ _ 
 (* ---- correspondence ---- *)
 Definition keys_of (g : gcfg) : list nat := route_keys _ _ _ _ (goal_table g).
 Definition dump_cache (g : gcfg) (c : fcache) : list (nat * option fval) := map (fun k => (k, c k)) (keys_of g).
-(* what a context rebuilt from the bare tour holds: empty cache, GoalContext::accept_route_state, then the solution-level
-   handlers on a tour that is not stale any more *)
+(* what a context rebuilt from the bare tour holds (harness `rebuild_full`): empty cache, GoalContext::accept_route_state, the
+   stale flag set again (state_mut), then the solution-level handlers: every one of them refreshes the tour in its first round *)
 Definition rebuilt_route (g : gcfg) (t : ftour) : frctx :=
-  accept_route_state_d _ _ _ _ (goal_table g) (mkRctx t (fun _ => None) true).
+  state_mut ftour fval (accept_route_state_d _ _ _ _ (goal_table g) (mkRctx t (fun _ => None) true)).
 Definition rebuilt_solution (g : gcfg) (ts : list ftour) : sctx ftour fval sval :=
   accept_solution_state_d _ _ _ _ (goal_table g) (mkS (map (rebuilt_route g) ts) (fun _ => None)).
 Definition agg_keys_of (g : gcfg) : list nat := agg_keys _ _ _ _ (goal_table g).
@@ -541,6 +556,9 @@ Definition no_jobs (t : ftour) : bool := forallb (fun a => is_terminal (fa_act a
 (* a context as accept_route_state leaves it *)
 Definition wfresh (g : gcfg) (t : ftour) : rctx ftour fval :=
   accept_route_state_d ftour fact fval sval (goal_table udur udist g) (mkRctx t (fun _ => None) true).
+(* the same with the table before /repo 5d6f1d2 (the route-level handlers are the same: so is the context) *)
+Definition wfresh_before (g : gcfg) (t : ftour) : rctx ftour fval :=
+  accept_route_state_d ftour fact fval sval (goal_table_before_5d6f1d2 udur udist g) (mkRctx t (fun _ => None) true).
 
 (* ---- the table as data, for the tie with the Rust source (tools/props/c05_table.py compares it on every run with what it
    extracts from the `impl FeatureState for X` blocks): per descriptor (key, route-level handler writes it, solution-level
@@ -554,3 +572,19 @@ Definition table_rows : list (nat * bool * nat * bool * bool) * list nat :=
            d_on_insertion f (wact 1 0 0), d_on_insertion f tagged_job)%nat)
        (route_features ftour fact fval sval (goal_table udur udist cfg_table)),
    agg_keys ftour fact fval sval (goal_table udur udist cfg_table)).
+
+(* ---- finding C05-F6 (the part of C05-F5 that /repo 38e261f does not cover): a tour is emptied BY A STATE HANDLER during
+   accept_solution_state (route_intervals.rs remove_trivial_markers takes the last activity - an obsolete reload marker - out of a tour
+   and pushes it to `ignored`; the changed pending list restarts the round): the restarted round computes the aggregates while that
+   tour, now without jobs, is still in the solution; restore drops it afterwards.  `edit` = what the abandoned round did to the tours *)
+Definition restore_with_restart (edit : list (rctx ftour fval) -> list (rctx ftour fval)) (es : list (entry ftour fact fval sval))
+           (s : sctx ftour fval sval) : sctx ftour fval sval :=
+  let s0 := mkS (drop_empty ftour fval no_jobs (s_routes s)) (s_aggs s) in
+  let s1 := run_sol ftour fact fval sval es s0 in                                   (* the abandoned round *)
+  let s2 := accept_solution_state_d ftour fact fval sval es (mkS (edit (s_routes s1)) (s_aggs s1)) in   (* the round that completes *)
+  mkS (drop_empty ftour fval no_jobs (s_routes s2)) (s_aggs s2).
+Definition wmarker : fact := mkFA (mkAct 100 0 0 0 INF dzero 0 0) true false None false 0 0.
+(* a tour whose only job is a reload marker *)
+Definition wtourm : ftour := mkFT wveh [wact (-1) 0 0; wmarker; wact (-1) 0 0].
+Definition drop_markers (rs : list (rctx ftour fval)) : list (rctx ftour fval) :=
+  map (fun r => if existsb (fun a => fa_reload a) (ft_acts (rc_tour r)) then route_mut ftour fval (drop_job 100) r else r) rs.
